@@ -33,3 +33,31 @@ def sweep_generated(comp, zic_tables, pid, tier, seed, step=None, win=0, timeout
         return res, None
     finally:
         shutil.rmtree(d, ignore_errors=True)
+
+
+def run_generated(driver, comp, zic_tables, args, tier, seed, timeout=7200):
+    """Build `driver` against the freshly generated tables of `comp` (namespace vdb) and run it sharded with --db=gen and the
+    zic oracle of the emitted zones. -> (ShardResult | None, error text)"""
+    ext = comp.scope == 'extended'
+    d = tempfile.mkdtemp(prefix='verif-gen-')
+    try:
+        pipeline.generate(comp, 'arduino', d, db_namespace='vdb')
+        names = sorted(comp.tzdb['zones_map'])
+        h = hashlib.sha256(repr([(n, zic_tables[n]) for n in names]).encode()).hexdigest()[:12]
+        os.makedirs(runner.BUILD, exist_ok=True)
+        opath = os.path.join(runner.BUILD, 'oracle-gen-%s-%d.txt' % (h, os.getpid()))
+        zicrun.write_tables(zic_tables, names, opath)
+        srcs = [os.path.join(d, f) for f in ('zone_infos.cpp', 'zone_policies.cpp', 'zone_registry.cpp')]
+        try:
+            exe = runner.build_driver(driver, 'fast', extra_srcs=srcs, extra_flags=['-DVERIF_GEN_NS=vdb', '-DVERIF_GEN_EXT=%d' % (1 if ext else 0)], extra_inc=[d], strict=True)
+            res = runner.run_shards(exe, ['--db=gen', '--oracle=' + opath] + list(args), tier=tier, seed=seed, timeout=timeout)
+        except runner.Broken as e:
+            return None, str(e)
+        finally:
+            try:
+                os.remove(opath)
+            except OSError:
+                pass
+        return res, None
+    finally:
+        shutil.rmtree(d, ignore_errors=True)
